@@ -986,7 +986,8 @@ fn open_handle(m: &mut Model, n: Nid, is_dir: bool, keep: Option<u8>) {
         if is_dir {
             m.dh[s as usize] = Some(MDirHandle { nid: n });
         } else {
-            m.fh[s as usize] = Some(MFileHandle { nid: n, pos: 0, dirty: false, gen: 0 });
+            m.opens += 1;
+            m.fh[s as usize] = Some(MFileHandle { nid: n, pos: 0, dirty: false, gen: m.opens });
         }
     }
 }
@@ -1244,6 +1245,7 @@ fn state_key(cx: &RunCtx, fs: &Fs, slots: &Slots) -> u128 {
     let m = &cx.ex.model;
     feed(&|h| {
         m.changed_since_mount.hash(h);
+        (m.opens % 3).hash(h);
         for f in &m.fh {
             f.as_ref().map(|f| (f.nid, f.pos, f.dirty, f.gen % 3)).hash(h);
         }
